@@ -359,7 +359,7 @@ def run(chk):
     reent.threaded(chk, 'reentrancy', rcases, seconds=2.0 if chk.tier == 'thorough' else 0.6)
     # the cheapest codecs through the shared entry points only: the largest share of the time is spent in the dispatch itself
     cheap = [c for c in rcases if '_with_context' in c[0] and c[0].split('.')[0] in ('Boolean', 'Byte', 'UnsignedByte', 'Short', 'Integer', 'Long', 'VarInt', 'Float', 'Double')]
-    reent.threaded(chk, 'reentrancy', cheap, nthreads=6, seconds=3.0 if chk.tier == 'thorough' else 1.2)
+    reent.threaded(chk, 'reentrancy', cheap, nthreads=8, seconds=4.0 if chk.tier == 'thorough' else 2.0)
     chk.assumptions += ['Python struct / str.encode / bytes.decode / uuid.UUID are library code mirrored by executable Gallina re-implementations and validated here',
                         'floats: the harness maps Python floats to IEEE bit patterns through float.hex()/frexp, independently of struct',
                         'Angle.send / FixedPoint use binary64 arithmetic; the model is exact-rational; inputs within 1e-9 of a rounding tie are excluded']
